@@ -308,7 +308,7 @@ def retouch_decl(d, rng):
     opts, multis, toggles = [list(x) for x in d.opts], [list(x) for x in d.multis], [list(x) for x in d.toggles]
     allent = [("o", x) for x in opts] + [("m", x) for x in multis] + [("t", x) for x in toggles]
     if not allent:
-        return d
+        return Decl([], [], [], rng.choice([None, 0, 1, 2, 3]), d.greedy)
     for _ in range(rng.randint(1, 3)):
         kind, x = rng.choice(allent)
         r = rng.random()
@@ -325,7 +325,13 @@ def retouch_decl(d, rng):
                 x[3] = rng.choice([0, 1, 2])
         else:
             x[4] = True
-    return Decl([tuple(x) for x in opts], [tuple(x) for x in multis], [tuple(x) for x in toggles], d.allowed, d.greedy)
+    allowed, greedy = d.allowed, d.greedy
+    if rng.random() < 0.35:
+        # the positional set-up called again: another limit (larger, smaller, none, zero), greedy switched on or off
+        allowed = rng.choice([None, 0, 1, 2, 3])
+        if rng.random() < 0.3:
+            greedy = not greedy
+    return Decl([tuple(x) for x in opts], [tuple(x) for x in multis], [tuple(x) for x in toggles], allowed, greedy)
 
 
 ENV_WORDS = ["", "x", "1", "0", "true", "FALSE", "on", "Off", "maybe", "-5", "--a=b", "a;b", ";", "a;;b;", "yes", "No", "TRUE ", "tRUE"]
